@@ -209,6 +209,15 @@ class C14(Prop):
             for aggs in ([{'f': 'sum', 'col': 0}], [{'f': 'sum', 'col': 0}, {'f': 'count', 'col': 0}], [{'f': 'first', 'col': 0}]):
                 out.append({'kind': 'agg', 'mode': 'groupby', 'ktypes': ['int'], 'pivot': pv, 'vtypes': ['int'], 'aggs': aggs,
                             'layout': [rows3[:2], rows3[2:3], rows3[3:]]})
+        # a pivot cell whose group is present in every partition while the CELL has no row in the first two (resp. the last two)
+        # of them: only a pivot produces per-group partials that saw no row at all, and only a third partition shows what adopting
+        # such a partial does to first / last (seeded change C14-m16 was reported for some seeds only)
+        rows4 = [[S(1), S('x'), S(1)], [S(1), S('x'), S(2)], [S(1), S('y'), S(7)], [S(1), S('x'), S(3)]]
+        for lay in ([rows4[:1], rows4[1:2], rows4[2:3], rows4[3:]], [rows4[2:3], rows4[:1], rows4[1:2], rows4[3:]],
+                    [rows4[:1], [], rows4[1:2], rows4[2:]]):
+            for f in ('first', 'last', 'first_ign', 'last_ign', 'min', 'collect_list', 'count', 'sum'):
+                out.append({'kind': 'agg', 'mode': 'groupby', 'ktypes': ['int'], 'pivot': {'auto': False, 'values': ['x', 'y']},
+                            'vtypes': ['int'], 'aggs': [{'f': f, 'col': 0}], 'layout': lay})
         for kind in ('describe', 'summary'):
             t = [[S(1), S(1.5), S('b')], [None, S(2.0), S('a')], [S(3), None, None], [S(5), S(0.5), S('a')]]
             out.append({'kind': kind, 'vtypes': ['int', 'dbl', 'str'], 'layout': [t[:1], [], t[1:3], t[3:]]})
